@@ -215,6 +215,85 @@ Theorem C07_timed_judge_sound : forall c horizon msgs a b,
 Proof. exact timed_ignored_sound. Qed.
 Print Assumptions C07_timed_judge_sound.
 
+(* WHO TAKES THE COORDINATOR ROLE (tss/coordinator.go start compares the elected id with the relayer's own
+   host id, by their complete printed form): a relayer runs the coordinator's side of an attempt exactly
+   when it IS the elected coordinator; a relayer other than the elected one never does - however much its
+   id looks like the coordinator's, it is a different peer; and two relayers that list the key holders in
+   different orders and both take the role are the same relayer. *)
+Theorem C07_role_iff_elected : forall c self,
+  takes_coordinator_role c self = true <-> c = Some self.
+Proof. exact role_iff_elected. Qed.
+Print Assumptions C07_role_iff_elected.
+
+Theorem C07_role_only_elected : forall c self p,
+  c = Some p -> self <> p -> takes_coordinator_role c self = false.
+Proof. exact role_only_elected. Qed.
+Print Assumptions C07_role_only_elected.
+
+Theorem C07_one_coordinator_role : forall (key : peer -> N) l l' p q,
+  inj_on key l -> Permutation l l' ->
+  takes_coordinator_role (coordinator key l) p = true ->
+  takes_coordinator_role (coordinator key l') q = true -> p = q.
+Proof. exact one_coordinator_role. Qed.
+Print Assumptions C07_one_coordinator_role.
+
+(* SEVERAL SESSIONS ON ONE RELAYER (one long-lived Coordinator object, Execute once per session, any
+   number of sessions, each with the coordinator elected from its own session id; events = messages
+   tagged with the session they belong to, in ANY interleaving, from every state of every session).
+   Projection: what the relayer does in session s is what a relayer that serves s alone does on the
+   messages of s - the other sessions, their coordinators and their progress do not exist for it. *)
+Theorem C07_multi_projection : forall cs script st s,
+  of_session s (multi_run cs st script) = snd (run_wait (cs s) (st s) (of_session s script)).
+Proof. exact multi_projection. Qed.
+Print Assumptions C07_multi_projection.
+
+(* hence every session is moved by ITS OWN coordinator's messages only: dropping every message that was
+   not sent by the coordinator of the session it is addressed to - messages of the coordinators of the
+   relayer's OTHER sessions included - changes nothing in any session *)
+Theorem C07_multi_only_own_coordinator : forall cs script st s,
+  of_session s (multi_run cs st script) = of_session s (multi_run cs st (own_events cs script)).
+Proof. exact multi_only_own_coordinator. Qed.
+Print Assumptions C07_multi_only_own_coordinator.
+
+Theorem C07_multi_foreign_event_nothing : forall cs st s c m r,
+  cs s = Some c -> from_is c m = false ->
+  multi_run cs st ((s, m) :: r) = multi_run cs st r.
+Proof. exact multi_foreign_event_nothing. Qed.
+Print Assumptions C07_multi_foreign_event_nothing.
+
+(* ... whatever attempt each session is in: [wcs s] = what the watcher of session s was told, [cs s] = what
+   its waitForStart was told - the elected coordinator on both sides in a first attempt, nothing (as coded) or
+   the re-elected coordinator on the watcher's side in a retried attempt.  [multi_run cs] = [multi_run2 cs cs]. *)
+Theorem C07_multi_projection_any_attempt : forall wcs cs script st s,
+  of_session s (multi_run2 wcs cs st script) = snd (run_wait2 (wcs s) (cs s) (st s) (of_session s script)).
+Proof. exact multi_projection2. Qed.
+Print Assumptions C07_multi_projection_any_attempt.
+
+Theorem C07_multi_only_own_coordinator_any_attempt : forall wcs cs script st s,
+  (forall s c, cs s = Some c -> wcs s = None \/ wcs s = Some c) ->
+  of_session s (multi_run2 wcs cs st script) = of_session s (multi_run2 wcs cs st (own_events cs script)).
+Proof. exact multi_only_own_coordinator2. Qed.
+Print Assumptions C07_multi_only_own_coordinator_any_attempt.
+
+Theorem C07_multi_judge_model_any_attempt : forall wcs cs script s c,
+  (forall s c, cs s = Some c -> wcs s = None \/ wcs s = Some c) -> cs s = Some c ->
+  outs_justified c (of_session s script) (of_session s (multi_run2 wcs cs all_waiting script)) = true.
+Proof. exact multi_judge_model2. Qed.
+Print Assumptions C07_multi_judge_model_any_attempt.
+
+Theorem C07_multi_retried_never_aborts : forall wcs cs script st s,
+  wcs s = None -> ~ In OAbort (of_session s (multi_run2 wcs cs st script)).
+Proof. exact multi_retried_never_aborts. Qed.
+Print Assumptions C07_multi_retried_never_aborts.
+
+(* the judge of the multi-session cases is the judge of the wait cases applied per session to that
+   session's messages and actions: it accepts the model for every script *)
+Theorem C07_multi_judge_model : forall cs script s c,
+  cs s = Some c ->
+  outs_justified c (of_session s script) (of_session s (multi_run cs all_waiting script)) = true.
+Proof. exact multi_judge_model. Qed.
+Print Assumptions C07_multi_judge_model.
+
 (* Non-vacuity: three key holders listed in two orders elect the same coordinator; a ready stream
    with a duplicate, an outsider (7) and an excluded peer (2) yields a well-formed subset; a forged
    start and a forged fail are ignored while the coordinator's own messages act. *)
@@ -242,4 +321,22 @@ Example C07_nonvacuous :
      = ([OReady 1; ORun [1; 3]]%N, TRunning)
   /\ timed_first 1%N 300 5000 2000 [(200, MInitiate 3); (350, MStart 1 (Some [1; 3]))]%N = ([], TCoordTimeout)
   /\ timed_ignored 1%N 2000 [(100, MInitiate 3); (200, MInitiate 3); (300, MInitiate 3)]%N ([], TWaiting) ([], TCoordTimeout) = false.
+Proof. vm_compute. repeat split. Qed.
+
+(* Non-vacuity of the role and multi-session statements: peer 4 is not the elected coordinator 1 and does
+   not take the role; two overlapping sessions with coordinators 1 (session 0) and 2 (session 1): a fail
+   message for session 0 from session 1's coordinator, and a start message for session 1 from session
+   0's, are ignored; each session obeys its own coordinator; a relayer that aborted session 0 on the
+   other session's coordinator's word is rejected by the judge. *)
+Example C07_multi_nonvacuous :
+  let key := fun p : peer => match p with 0 => 50 | 1 => 90 | 2 => 70 | 3 => 10 | _ => 5 end%N in
+  let cs := fun s : session => match s with 0 => Some 1 | 1 => Some 2 | _ => None end%N in
+  let script := [(0, MInitiate 1); (1, MInitiate 2); (0, MStart 1 (Some [1; 3])); (0, MFail 2);
+                 (1, MStart 1 (Some [1])); (1, MFail 1); (1, MFail 2); (0, MFail 1)]%N in
+  takes_coordinator_role (coordinator key [0; 1; 2; 4]%N) 4%N = false
+  /\ takes_coordinator_role (coordinator key [0; 1; 2; 4]%N) 1%N = true
+  /\ of_session 0%N (multi_run cs all_waiting script) = [OReady 1; ORun [1; 3]; OAbort]%N
+  /\ of_session 1%N (multi_run cs all_waiting script) = [OReady 2; OAbort]%N
+  /\ of_session 0%N script = [MInitiate 1; MStart 1 (Some [1; 3]); MFail 2; MFail 1]%N
+  /\ outs_justified 1%N [MInitiate 1; MStart 1 (Some [1; 3]); MFail 2]%N [OReady 1; ORun [1; 3]; OAbort]%N = false.
 Proof. vm_compute. repeat split. Qed.
